@@ -114,6 +114,11 @@ fn escape_regex(lit: &str) -> String {
         .replace('^', "\\^")
         .replace('$', "\\$")
         .replace('/', "\\/")
+        // the pattern is printed as a JavaScript regex literal: a raw line terminator ends it
+        .replace('\n', "\\n")
+        .replace('\r', "\\r")
+        .replace('\u{2028}', "\\u2028")
+        .replace('\u{2029}', "\\u2029")
 }
 
 impl TplLitTypeItem {
@@ -196,6 +201,10 @@ impl TplLitType {
 
         for item in &self.0 {
             regex_exp.push_str(&item.regex_expr());
+        }
+        if regex_exp.is_empty() {
+            // `${""}`: an empty pattern would be printed as `//`, which is a comment
+            return "(?:)".to_string();
         }
         regex_exp
     }
